@@ -151,6 +151,7 @@ def run_item(item):
                 res['summaries_by_layout'][str(lspec)] = per_layout
         if item.get('post_item'):
             item['post_item'](item, res)
+        res['summaries_by_layout'] = {}
     except Unsupported as e:
         res['error'] = 'unsupported: %s' % e
     except driver.ScriptError as e:
